@@ -203,8 +203,43 @@ theorem Steps.rest1 {w : World} {now : Int} {p q : PeerSt} (h : Steps w now p q)
   | fail msg _ ih => rw [← ih]; exact rest1_of_rest (fail_rest ..)
   | resetFlags _ ih => rw [← ih]; rfl
 
+/-- the fields that decide availability and idling -/
+def core (p : PeerSt) :=
+  (p.sources, p.addrIdx, p.addr, p.status, p.cache, p.lastError, p.lastOnline, p.lastQuery, p.idling,
+   p.errorCount, p.cfgFlags)
+
+/-- the peer states reachable through failures and bookkeeping (update stamps, flags, the remembered core
+    start and pid): what the requests of a rebuild do to the peer before the new set is published -/
+inductive StepsB (w : World) (now : Int) : PeerSt → PeerSt → Prop
+  | refl (p : PeerSt) : StepsB w now p p
+  | fail {p q : PeerSt} (msg : String) : StepsB w now p q → StepsB w now p (q.fail w now msg)
+  | book {p q q' : PeerSt} : StepsB w now p q → core q' = core q → StepsB w now p q'
+
+theorem StepsB.trans {w : World} {now : Int} {p q r : PeerSt} (h1 : StepsB w now p q) (h2 : StepsB w now q r) :
+    StepsB w now p r := by
+  induction h2 with
+  | refl => exact h1
+  | fail msg _ ih => exact .fail msg ih
+  | book _ h ih => exact .book ih h
+
+theorem Steps.toB {w : World} {now : Int} {p q : PeerSt} (h : Steps w now p q) : StepsB w now p q := by
+  induction h with
+  | refl => exact .refl _
+  | fail msg _ ih => exact .fail msg ih
+  | resetFlags _ ih => exact .book ih rfl
+
+theorem query_stepsB (w : World) (now : Int) (p : PeerSt) (b : BackendSt) (handled : Bool) :
+    StepsB w now p (query w now p b handled).1 := (query_steps w now p b handled).toB
+
+theorem core_fields {p q : PeerSt} (h : core q = core p) :
+    q.status = p.status ∧ q.cache = p.cache ∧ q.lastError = p.lastError ∧ q.idling = p.idling ∧
+      q.lastQuery = p.lastQuery ∧ q.sources = p.sources ∧ q.lastOnline = p.lastOnline := by
+  simp only [core, Prod.mk.injEq] at h
+  obtain ⟨a, _, _, d, e, f, g, h1, i, _, _⟩ := h
+  exact ⟨d, e, f, i, h1, a, g⟩
+
 /-- the published data set after some failures is the old one, or none -/
-theorem Steps.cache {w : World} {now : Int} {p q : PeerSt} (h : Steps w now p q) :
+theorem StepsB.cache {w : World} {now : Int} {p q : PeerSt} (h : StepsB w now p q) :
     q.cache = p.cache ∨ q.cache = none := by
   induction h with
   | refl => exact .inl rfl
@@ -213,11 +248,11 @@ theorem Steps.cache {w : World} {now : Int} {p q : PeerSt} (h : Steps w now p q)
     split
     · exact .inr rfl
     · exact ih
-  | resetFlags _ ih => exact ih
+  | book _ h ih => rw [(core_fields h).2.1]; exact ih
 
 /-- failures never make a peer `Up`; if it still is, it was before and it held no data or nothing happened to
     its data and error -/
-theorem Steps.up {w : World} {now : Int} {p q : PeerSt} (h : Steps w now p q) (hu : q.status = .up) :
+theorem StepsB.up {w : World} {now : Int} {p q : PeerSt} (h : StepsB w now p q) (hu : q.status = .up) :
     p.status = .up ∧ (p.cache = none ∨ (q.cache = p.cache ∧ q.lastError = p.lastError)) := by
   induction h with
   | refl => exact ⟨hu, .inr ⟨rfl, rfl⟩⟩
@@ -228,10 +263,14 @@ theorem Steps.up {w : World} {now : Int} {p q : PeerSt} (h : Steps w now p q) (h
     rcases h4 with h4 | ⟨h4, _⟩
     · exact h4
     · rw [← h4]; exact h2
-  | resetFlags _ ih => exact ih hu
+  | book _ h ih =>
+    have hc := core_fields h
+    rw [hc.1] at hu
+    rw [hc.2.1, hc.2.2.1]
+    exact ih hu
 
 /-- a failure recorded after any number of earlier ones leaves `Up` only on a peer that was `Up` without data -/
-theorem Steps.fail_up {w : World} {now : Int} {p q : PeerSt} {msg : String} (h : Steps w now p q)
+theorem StepsB.fail_up {w : World} {now : Int} {p q : PeerSt} {msg : String} (h : StepsB w now p q)
     (hu : (q.fail w now msg).status = .up) : p.status = .up ∧ p.cache = none := by
   obtain ⟨h1, h2⟩ := PeerL.fail_up hu
   obtain ⟨h3, h4⟩ := h.up h1
@@ -278,11 +317,6 @@ theorem query_inv {w : World} {now : Int} {p : PeerSt} {b : BackendSt} {handled 
 
 /-! ## what a table refresh does to the peer -/
 
-/-- the fields that decide availability and idling -/
-def core (p : PeerSt) :=
-  (p.sources, p.addrIdx, p.addr, p.status, p.cache, p.lastError, p.lastOnline, p.lastQuery, p.idling,
-   p.errorCount, p.cfgFlags)
-
 /-- the peer states reachable through failures, bookkeeping (update stamps, flags, the remembered core
     start and pid), the broken mark, and `resetErrors` on a peer that holds data -/
 inductive Steps2 (w : World) (now : Int) : PeerSt → PeerSt → Prop
@@ -302,11 +336,14 @@ theorem Steps2.trans {w : World} {now : Int} {p q r : PeerSt} (h1 : Steps2 w now
   | broken msg _ ih => exact .broken msg ih
   | recovered _ h ih => exact .recovered ih h
 
-theorem Steps.steps2 {w : World} {now : Int} {p q : PeerSt} (h : Steps w now p q) : Steps2 w now p q := by
+theorem StepsB.steps2 {w : World} {now : Int} {p q : PeerSt} (h : StepsB w now p q) : Steps2 w now p q := by
   induction h with
   | refl => exact .refl _
   | fail msg _ ih => exact .fail msg ih
-  | resetFlags _ ih => exact .book ih rfl
+  | book _ h ih => exact .book ih h
+
+theorem Steps.steps2 {w : World} {now : Int} {p q : PeerSt} (h : Steps w now p q) : Steps2 w now p q :=
+  h.toB.steps2
 
 theorem query_steps2 (w : World) (now : Int) (p : PeerSt) (b : BackendSt) (handled : Bool) :
     Steps2 w now p (query w now p b handled).1 := (query_steps w now p b handled).steps2
@@ -555,5 +592,1596 @@ theorem updateDelta_ok {w : World} {now : Int} {p : PeerSt} {b : BackendSt} {c :
       cases hx : r3.p.cache
       · simp [hx] at hc
       · rfl
+
+/-- the refresh of the hosts / services that use a changed timeperiod -/
+def periodOne (w : World) (now : Int) (name : String) (p : PeerSt) (b : BackendSt) (c : Cache) (tname : String) : DeltaResult :=
+  let t := (w.schema.table? tname).getD { name := tname, cols := [] }
+  let q := query w now p b
+  match q.2.2 with
+  | some _ => { p := q.1, b := q.2.1, cache := c, err := .failed "period refresh" }
+  | none =>
+    let rows := (q.2.1.rows tname).filter (fun r => replyStr r "check_period" == name || replyStr r "notification_period" == name)
+    match applyDelta w q.1.flags t (c.get tname) rows with
+    | none => { p := q.1, b := q.2.1, cache := c, err := .failed "unknown object" }
+    | some rs => { p := q.1, b := q.2.1, cache := c.set tname rs, err := .none }
+
+theorem periods_cons (w : World) (now : Int) (name : String) (rest : List String) (p : PeerSt) (b : BackendSt) (c : Cache) :
+    updateTimeperiods.periods w now (name :: rest) p b c =
+      let r := periodOne w now name p b c "hosts"
+      match r.err with
+      | .none =>
+        let r := periodOne w now name r.p r.b r.cache "services"
+        match r.err with
+        | .none => updateTimeperiods.periods w now rest r.p r.b r.cache
+        | _ => r
+      | _ => r := by
+  rw [updateTimeperiods.periods]
+  rfl
+
+theorem periodOne_steps2 (w : World) (now : Int) (name : String) (p : PeerSt) (b : BackendSt) (c : Cache) (t : String) :
+    Steps2 w now p (periodOne w now name p b c t).p := by
+  unfold periodOne
+  simp only []
+  repeat' split
+  all_goals steps2_close
+
+theorem periods_steps2 (w : World) (now : Int) :
+    ∀ (ns : List String) (p : PeerSt) (b : BackendSt) (c : Cache),
+      Steps2 w now p (updateTimeperiods.periods w now ns p b c).p
+  | [], p, b, c => by unfold updateTimeperiods.periods; exact .refl p
+  | n :: ns, p, b, c => by
+    rw [periods_cons]
+    simp only []
+    have h1 := periodOne_steps2 w now n p b c "hosts"
+    generalize periodOne w now n p b c "hosts" = r1 at h1 ⊢
+    split
+    · have h2 := h1.trans (periodOne_steps2 w now n r1.p r1.b r1.cache "services")
+      generalize periodOne w now n r1.p r1.b r1.cache "services" = r2 at h2 ⊢
+      split
+      · exact h2.trans (periods_steps2 w now ns _ _ _)
+      · exact h2
+    · exact h1
+
+theorem updateTimeperiods_steps2 (w : World) (now : Int) (p : PeerSt) (b : BackendSt) (c : Cache) :
+    Steps2 w now p (updateTimeperiods w now p b c).p := by
+  unfold updateTimeperiods
+  simp only []
+  have h1 := query_steps2 w now p b true
+  split
+  · exact h1
+  · split
+    · exact h1
+    · exact h1.trans ((Steps2.book (.refl _) rfl :
+        Steps2 w now (query w now p b).1 { (query w now p b).1 with lastTpMinute := (now / 60) % 60 }).trans (periods_steps2 ..))
+
+theorem updateFullList_steps2 (w : World) (now : Int) :
+    ∀ (ts : List String) (p : PeerSt) (b : BackendSt) (c : Cache), Steps2 w now p (updateFullList w now ts p b c).p
+  | [], p, b, c => by unfold updateFullList; exact .refl p
+  | t :: ts, p, b, c => by
+    unfold updateFullList
+    simp only []
+    have h1 : Steps2 w now p (if t == "timeperiods" then updateTimeperiods w now p b c
+      else if t == "hosts" || t == "services" then updateFullObjects w now p b c t
+      else updateFullTable w now p b c t).p := by
+      split
+      · exact updateTimeperiods_steps2 ..
+      · split
+        · exact updateFullObjects_steps2 ..
+        · exact updateFullTable_steps2 ..
+    generalize (if t == "timeperiods" then updateTimeperiods w now p b c
+      else if t == "hosts" || t == "services" then updateFullObjects w now p b c t
+      else updateFullTable w now p b c t) = r at h1 ⊢
+    split
+    · exact h1.trans (updateFullList_steps2 w now ts _ _ _)
+    · exact h1
+
+/-! ## `InitAllTables` -/
+
+/-- `checkAvailableTables`: one unhandled request on the columns table, not for Icinga2 -/
+def availStep (w : World) (now : Int) (p : PeerSt) (b : BackendSt) (flags : Nat) : PeerSt × BackendSt × Nat :=
+  if (flags &&& flagBit w.schema "Icinga2") != 0 then (p, b, flags)
+  else
+    let q := query w now p b (handled := false)
+    match q.2.2 with
+    | none => (q.1, q.2.1, flags ||| columnFlags w.schema q.2.1)
+    | some _ => (q.1, q.2.1, flags)
+
+/-- the `requestLocaltime` step -/
+def localtimeStep (w : World) (now : Int) (p : PeerSt) (b : BackendSt) : PeerSt × BackendSt × Option FetchErr :=
+  if (p.flags &&& flagBit w.schema "HasLocaltimeColumn") != 0 then query w now p b else (p, b, none)
+
+/-- the table set `InitAllTables` starts to build: the status table -/
+def cache0 (w : World) (statusRows : List ReplyRow) : Cache :=
+  [("status", syncTable ((w.schema.table? "status").getD { name := "status", cols := [] }) statusRows)]
+
+/-- `InitAllTables` stamps the update times first -/
+def initP0 (p : PeerSt) (now : Int) : PeerSt :=
+  { p with lastUpdate := now, lastFullUpdate := now, lastFullServiceUpdate := now, lastFullHostUpdate := now }
+
+/-- what `InitAllTables` remembers from the status row: flags, core start, core pid -/
+def initP1 (a : PeerSt × BackendSt × Nat) (st : ReplyRow) : PeerSt :=
+  { a.1 with flags := a.2.2, programStart := replyInt st "program_start", corePid := replyInt st "nagios_pid" }
+
+/-- `initTable`: a peer that is neither pending nor syncing is marked syncing -/
+def syncingStep (p1 : PeerSt) : PeerSt :=
+  if p1.status != .pending && p1.status != .syncing then { p1 with status := .syncing, lastError := "reconnecting..." } else p1
+
+theorem initAllTables_eq (w : World) (now : Int) (p : PeerSt) (b : BackendSt) :
+    initAllTables w now p b =
+      let q := query w now (initP0 p now) b
+      match q.2.2 with
+      | some _ => { p := q.1, b := q.2.1, err := .failed "status" }
+      | none =>
+        match q.2.1.rows "status" with
+        | [] => { p := { q.1 with status := .down, lastError := "peered partner not ready yet", cache := none }, b := q.2.1,
+                  err := .failed "peered partner not ready yet" }
+        | st :: _ =>
+          let a := availStep w now q.1 q.2.1 (q.1.flags ||| versionFlag w.schema (replyStr st "livestatus_version"))
+          let p2 : PeerSt := syncingStep (initP1 a st)
+          let l := initAllTables.loop w now (updateTables.drop 1) p2 a.2.1 (cache0 w (q.2.1.rows "status"))
+          match l.2.2 with
+          | none => { p := l.1, b := l.2.1, err := .failed "table" }
+          | some c =>
+            let lt := localtimeStep w now l.1 l.2.1
+            match lt.2.2 with
+            | some _ => { p := lt.1, b := lt.2.1, err := .failed "localtime" }
+            | none =>
+              { p := if !(lt.1.status == .up) then PeerSt.recovered { lt.1 with cache := some (rebuildLists c) } now
+                     else { lt.1 with cache := some (rebuildLists c) },
+                b := lt.2.1, err := .none } := by
+  rfl
+
+/-! ### the table loop of `InitAllTables` -/
+
+/-- the table description a store is built with -/
+def tableOf (w : World) (t : String) : Table := (w.schema.table? t).getD { name := t, cols := [] }
+
+/-- the set `InitAllTables` builds aside from the backend's object set `b` (before the id lists are rebuilt) -/
+def freshCache (w : World) (b : BackendSt) : Cache :=
+  (updateTables.drop 1).foldl (fun c t => c.set t (syncTable (tableOf w t) (b.rows t))) (cache0 w (b.rows "status"))
+
+theorem loop_spec (w : World) (now : Int) :
+    ∀ (ts : List String) (p : PeerSt) (b : BackendSt) (c : Cache),
+      StepsB w now p (initAllTables.loop w now ts p b c).1 ∧
+      (initAllTables.loop w now ts p b c).2.1.tables = b.tables ∧
+      (∀ c', (initAllTables.loop w now ts p b c).2.2 = some c' →
+          c' = ts.foldl (fun c t => c.set t (syncTable (tableOf w t) (b.rows t))) c) ∧
+      ((initAllTables.loop w now ts p b c).2.2 = none →
+          ∃ q msg, StepsB w now p q ∧ (initAllTables.loop w now ts p b c).1 = q.fail w now msg ∧
+            (msg = "connection failed" ∨ msg = "bad response"))
+  | [], p, b, c => by
+    unfold initAllTables.loop
+    exact ⟨.refl p, rfl, (fun c' h => by cases h; rfl), (fun h => by cases h)⟩
+  | t :: ts, p, b, c => by
+    unfold initAllTables.loop
+    simp only []
+    have hq := query_stepsB w now p b true
+    have ht := (query_tables w now p b true).1
+    have hf := query_failed w now p b
+    generalize query w now p b = q at hq ht hf ⊢
+    cases he : q.2.2 with
+    | some e =>
+      simp only []
+      refine ⟨hq, ht, (fun c' h => by cases h), (fun _ => ?_)⟩
+      obtain ⟨q', msg, h1, h2, h3⟩ := hf (by rw [he]; simp)
+      exact ⟨q', msg, h1.toB, h2, h3⟩
+    | none =>
+      simp only []
+      have hrows : q.2.1.rows t = b.rows t := rows_of_tables ht t
+      rw [hrows]
+      generalize hp' : (if (t == "timeperiods") = true then
+          ({ ({ q.1 with lastUpdate := now, lastFullUpdate := now } : PeerSt) with lastTpMinute := (now / 60) % 60 } : PeerSt)
+        else { q.1 with lastUpdate := now, lastFullUpdate := now }) = p'
+      have hb : StepsB w now q.1 p' := by
+        rw [← hp']; split <;> exact .book (.refl _) rfl
+      obtain ⟨i1, i2, i3, i4⟩ := loop_spec w now ts p' q.2.1 (c.set t (syncTable ((w.schema.table? t).getD { name := t, cols := [] }) (b.rows t)))
+      refine ⟨(hq.trans hb).trans i1, i2.trans ht, fun c' h => ?_, fun h => ?_⟩
+      · rw [i3 c' h, List.foldl_cons]
+        congr 1
+        funext c0 t0
+        rw [rows_of_tables ht t0]
+      · obtain ⟨q', msg, h1, h2, h3⟩ := i4 h
+        exact ⟨q', msg, (hq.trans hb).trans h1, h2, h3⟩
+
+theorem availStep_spec (w : World) (now : Int) (p : PeerSt) (b : BackendSt) (flags : Nat) :
+    StepsB w now p (availStep w now p b flags).1 ∧ (availStep w now p b flags).2.1.tables = b.tables := by
+  unfold availStep
+  simp only []
+  split
+  · exact ⟨.refl p, rfl⟩
+  · split <;> exact ⟨query_stepsB .., (query_tables ..).1⟩
+
+theorem localtimeStep_spec (w : World) (now : Int) (p : PeerSt) (b : BackendSt) :
+    StepsB w now p (localtimeStep w now p b).1 ∧ (localtimeStep w now p b).2.1.tables = b.tables ∧
+      ((localtimeStep w now p b).2.2 ≠ none →
+        ∃ q msg, StepsB w now p q ∧ (localtimeStep w now p b).1 = q.fail w now msg ∧
+          (msg = "connection failed" ∨ msg = "bad response")) := by
+  unfold localtimeStep
+  split
+  · refine ⟨query_stepsB .., (query_tables ..).1, fun h => ?_⟩
+    obtain ⟨q', msg, h1, h2, h3⟩ := query_failed w now p b h
+    exact ⟨q', msg, h1.toB, h2, h3⟩
+  · exact ⟨.refl p, rfl, fun h => absurd rfl h⟩
+
+/-- how a failed rebuild leaves the peer, relative to the state `p` it started from: the old set or none,
+    an error text, and not `Up` (unless it was `Up` without data, which `Inv` excludes) -/
+def FailEnd (p r : PeerSt) : Prop :=
+  (r.cache = p.cache ∨ r.cache = none) ∧ r.lastError ≠ "" ∧ (r.status = .up → p.status = .up ∧ p.cache = none)
+
+theorem msg_ne {msg : String} (h : msg = "connection failed" ∨ msg = "bad response") : msg ≠ "" := by
+  rcases h with h | h <;> rw [h] <;> decide
+
+theorem failEnd_fail {w : World} {now : Int} {p q : PeerSt} {msg : String} (h : StepsB w now p q)
+    (hm : msg = "connection failed" ∨ msg = "bad response") : FailEnd p (q.fail w now msg) := by
+  refine ⟨?_, ?_, fun hu => h.fail_up hu⟩
+  · rw [fail_cache]; split
+    · exact .inr rfl
+    · exact h.cache
+  · rw [fail_lastError]; exact msg_ne hm
+
+theorem failEnd_via {w : World} {now : Int} {p p2 q : PeerSt} {msg : String}
+    (hc : p2.cache = p.cache ∨ p2.cache = none) (hs : p2.status ≠ .up) (h : StepsB w now p2 q)
+    (hm : msg = "connection failed" ∨ msg = "bad response") : FailEnd p (q.fail w now msg) := by
+  refine ⟨?_, ?_, fun hu => absurd (h.fail_up hu).1 hs⟩
+  · rw [fail_cache]; split
+    · exact .inr rfl
+    · rcases h.cache with h1 | h1
+      · rw [h1]; exact hc
+      · exact .inr h1
+  · rw [fail_lastError]; exact msg_ne hm
+
+/-- everything the property theorems need to know about `InitAllTables` -/
+theorem initAllTables_spec (w : World) (now : Int) (p : PeerSt) (b : BackendSt) :
+    (initAllTables w now p b).b.tables = b.tables ∧
+    ((initAllTables w now p b).err = .none →
+      (initAllTables w now p b).p.cache = some (rebuildLists (freshCache w b)) ∧
+      (initAllTables w now p b).p.status = .up ∧ (initAllTables w now p b).p.lastError = "" ∧
+      (initAllTables w now p b).p.lastOnline = now ∧ (initAllTables w now p b).p.errorCount = 0) ∧
+    ((initAllTables w now p b).err ≠ .none → FailEnd p (initAllTables w now p b).p) := by
+  rw [initAllTables_eq]
+  simp only []
+  have hb0 : StepsB w now p (initP0 p now) := .book (.refl p) rfl
+  have hq := hb0.trans (query_stepsB w now (initP0 p now) b true)
+  have ht := (query_tables w now (initP0 p now) b true).1
+  have hf := query_failed w now (initP0 p now) b
+  generalize query w now (initP0 p now) b = q at hq ht hf ⊢
+  cases he : q.2.2 with
+  | some e =>
+    simp only []
+    refine ⟨ht, (fun h => by cases h), fun _ => ?_⟩
+    obtain ⟨q', msg, h1, h2, h3⟩ := hf (by rw [he]; simp)
+    rw [h2]
+    exact failEnd_fail (hb0.trans h1.toB) h3
+  | none =>
+    simp only []
+    cases hr : q.2.1.rows "status" with
+    | nil =>
+      simp only []
+      exact ⟨ht, (fun h => by cases h), fun _ => ⟨.inr rfl, (by simp), fun h => by cases h⟩⟩
+    | cons st rest =>
+      simp only []
+      obtain ⟨ha, hta⟩ := availStep_spec w now q.1 q.2.1 (q.1.flags ||| versionFlag w.schema (replyStr st "livestatus_version"))
+      generalize availStep w now q.1 q.2.1 (q.1.flags ||| versionFlag w.schema (replyStr st "livestatus_version")) = a at ha hta ⊢
+      have h1 : StepsB w now p (initP1 a st) := (hq.trans ha).trans (.book (.refl _) rfl)
+      generalize initP1 a st = p1 at h1 ⊢
+      have hc2 : (syncingStep p1).cache = p.cache ∨ (syncingStep p1).cache = none := by
+        unfold syncingStep; split <;> exact h1.cache
+      have hs2 : (syncingStep p1).status ≠ .up := by
+        unfold syncingStep; split
+        · simp
+        · rename_i hcond
+          intro hu; rw [hu] at hcond; simp at hcond
+      generalize syncingStep p1 = p2 at hc2 hs2 ⊢
+      obtain ⟨l1, l2, l3, l4⟩ := loop_spec w now (updateTables.drop 1) p2 a.2.1 (cache0 w (st :: rest))
+      generalize initAllTables.loop w now (updateTables.drop 1) p2 a.2.1 (cache0 w (st :: rest)) = l at l1 l2 l3 l4 ⊢
+      cases hl : l.2.2 with
+      | none =>
+        refine ⟨(l2.trans hta).trans ht, (fun h => by cases h), fun _ => ?_⟩
+        obtain ⟨q', msg, g1, g2, g3⟩ := l4 hl
+        rw [g2]
+        exact failEnd_via hc2 hs2 g1 g3
+      | some c =>
+        obtain ⟨t1, t2, t3⟩ := localtimeStep_spec w now l.1 l.2.1
+        generalize localtimeStep w now l.1 l.2.1 = lt at t1 t2 t3 ⊢
+        have htab : lt.2.1.tables = b.tables := ((t2.trans l2).trans hta).trans ht
+        cases hlt : lt.2.2 with
+        | some e =>
+          simp only []
+          refine ⟨htab, (fun h => by cases h), fun _ => ?_⟩
+          obtain ⟨q', msg, g1, g2, g3⟩ := t3 (by rw [hlt]; simp)
+          rw [g2]
+          exact failEnd_via hc2 hs2 (l1.trans g1) g3
+        | none =>
+          simp only []
+          have hnu : lt.1.status ≠ .up := fun hu => hs2 ((l1.trans t1).up hu).1
+          refine ⟨htab, fun _ => ?_, fun h => absurd rfl h⟩
+          have hcond : (!(lt.1.status == PeerState.up)) = true := by simp [hnu]
+          rw [if_pos hcond]
+          refine ⟨?_, rfl, rfl, rfl, rfl⟩
+          show some (rebuildLists c) = _
+          rw [l3 c hl]
+          unfold freshCache
+          have e1 : st :: rest = b.rows "status" := by rw [← hr]; exact rows_of_tables ht _
+          rw [e1]
+          congr 3
+          funext c0 t0
+          rw [rows_of_tables (hta.trans ht) t0]
+
+
+/-! ## the table set as a map -/
+
+theorem find_set_same (t : String) (rs : List Row) :
+    ∀ (c : Cache), (c.any fun x => x.1 == t) = true →
+      (c.map fun (n, old) => if n == t then (n, rs) else (n, old)).find? (fun x => x.1 == t) = some (t, rs)
+  | [], h => by simp at h
+  | (n, old) :: xs, h => by
+    rw [List.map_cons]
+    by_cases hn : (n == t) = true
+    · have : n = t := by simpa using hn
+      subst this
+      rw [List.find?_cons_of_pos]
+      · show some (if (n == n) = true then (n, rs) else (n, old)) = _
+        simp
+      · show ((if (n == n) = true then (n, rs) else (n, old)) : String × List Row).1 == n
+        simp
+    · simp only [List.any_cons, hn, Bool.false_or] at h
+      rw [List.find?_cons_of_neg]
+      · exact find_set_same t rs xs h
+      · show ¬ (((if (n == t) = true then (n, rs) else (n, old)) : String × List Row).1 == t) = true
+        simp only [hn]; simpa using hn
+
+theorem find_set_other (t t' : String) (rs : List Row) (h : t' ≠ t) :
+    ∀ (c : Cache),
+      ((c.map fun (n, old) => if n == t then (n, rs) else (n, old)).find? (fun x => x.1 == t')).map (·.2) =
+        (c.find? (fun x => x.1 == t')).map (·.2)
+  | [] => rfl
+  | (n, old) :: xs => by
+    rw [List.map_cons]
+    have hfst : (((if (n == t) = true then (n, rs) else (n, old)) : String × List Row).1) = n := by
+      split <;> rfl
+    by_cases hn' : (n == t') = true
+    · have hnt : (n == t) = false := by
+        have : n = t' := by simpa using hn'
+        subst this; simp [h]
+      rw [List.find?_cons_of_pos (p := fun x => x.1 == t') (a := (n, old)) hn', List.find?_cons_of_pos]
+      · show Option.map (·.2) (some (if (n == t) = true then (n, rs) else (n, old))) = _
+        simp [hnt]
+      · show ((if (n == t) = true then (n, rs) else (n, old)) : String × List Row).1 == t'
+        rw [hfst]; exact hn'
+    · rw [List.find?_cons_of_neg (p := fun x => x.1 == t') (a := (n, old)) hn', List.find?_cons_of_neg]
+      · exact find_set_other t t' rs h xs
+      · show ¬ (((if (n == t) = true then (n, rs) else (n, old)) : String × List Row).1 == t') = true
+        rw [hfst]; exact hn'
+
+theorem cache_get_eq (c : Cache) (t : String) :
+    c.get t = ((c.find? (fun x => x.1 == t)).map (·.2)).getD [] := by
+  unfold Cache.get
+  cases c.find? (fun x => x.1 == t) <;> rfl
+
+theorem cache_get_set_same (c : Cache) (t : String) (rs : List Row) : (c.set t rs).get t = rs := by
+  rw [cache_get_eq]
+  unfold Cache.set
+  by_cases h : (c.any fun x => x.1 == t) = true
+  · rw [if_pos h, find_set_same t rs c h]; rfl
+  · rw [if_neg h]
+    have hnone : c.find? (fun x => x.1 == t) = none := by
+      rw [List.find?_eq_none]
+      intro x hx hxt
+      exact h (List.any_eq_true.2 ⟨x, hx, hxt⟩)
+    simp [List.find?_append, hnone]
+
+theorem cache_get_set_other (c : Cache) (t t' : String) (rs : List Row) (h : t' ≠ t) :
+    (c.set t rs).get t' = c.get t' := by
+  rw [cache_get_eq, cache_get_eq]
+  unfold Cache.set
+  by_cases ha : (c.any fun x => x.1 == t) = true
+  · rw [if_pos ha, find_set_other t t' rs h c]
+  · rw [if_neg ha]
+    have : (t == t') = false := by simp [Ne.symm h]
+    simp only [List.find?_append, List.find?_cons, this, List.find?_nil, Option.or_none]
+
+theorem foldl_set_get (f : String → List Row) (t : String) :
+    ∀ (ts : List String) (c : Cache),
+      (ts.foldl (fun c t => c.set t (f t)) c).get t = if t ∈ ts then f t else c.get t
+  | [], c => by simp
+  | t0 :: ts, c => by
+    rw [List.foldl_cons, foldl_set_get f t ts]
+    by_cases h : t ∈ ts
+    · simp [h]
+    · by_cases h0 : t = t0
+      · subst h0; simp [h, cache_get_set_same]
+      · simp [h, h0, cache_get_set_other _ _ _ _ h0]
+
+/-- every table of the new set is the synchronised object set of the backend -/
+theorem freshCache_get (w : World) (b : BackendSt) (t : String) (h : t ∈ updateTables) :
+    (freshCache w b).get t = syncTable (tableOf w t) (b.rows t) := by
+  unfold freshCache
+  rw [foldl_set_get (fun t => syncTable (tableOf w t) (b.rows t))]
+  split
+  · rfl
+  · rename_i hn
+    have : t = "status" := by
+      simp only [updateTables, List.drop_succ_cons, List.drop_zero, List.mem_cons, List.not_mem_nil, or_false] at h hn
+      rcases h with h | h
+      · exact h
+      · exact absurd h hn
+    subst this
+    simp [cache0, Cache.get, tableOf]
+
+/-- the id list rebuild touches hosts and services only -/
+theorem rebuildLists_get_other (c : Cache) (t : String) (h1 : t ≠ "hosts") (h2 : t ≠ "services") :
+    (rebuildLists c).get t = c.get t := by
+  unfold rebuildLists
+  simp only []
+  rw [cache_get_set_other _ _ _ _ h2, cache_get_set_other _ _ _ _ h1]
+
+theorem rebuildLists_get_services (c : Cache) :
+    (rebuildLists c).get "services" =
+      (buildIdLists "downtimes" (c.get "downtimes")
+        (buildIdLists "comments" (c.get "comments") (c.get "hosts") (c.get "services")).1
+        (buildIdLists "comments" (c.get "comments") (c.get "hosts") (c.get "services")).2).2 := by
+  unfold rebuildLists
+  simp only []
+  rw [cache_get_set_same]
+
+theorem rebuildLists_get_hosts (c : Cache) :
+    (rebuildLists c).get "hosts" =
+      (buildIdLists "downtimes" (c.get "downtimes")
+        (buildIdLists "comments" (c.get "comments") (c.get "hosts") (c.get "services")).1
+        (buildIdLists "comments" (c.get "comments") (c.get "hosts") (c.get "services")).2).1 := by
+  unfold rebuildLists
+  simp only []
+  rw [cache_get_set_other _ _ _ _ (by decide), cache_get_set_same]
+
+
+
+/-! ## the update loop body -/
+
+theorem initAllTables_inv {w : World} {now : Int} {p : PeerSt} {b : BackendSt} (h : Inv p) :
+    Inv (initAllTables w now p b).p := by
+  obtain ⟨_, h2, h3⟩ := initAllTables_spec w now p b
+  by_cases he : (initAllTables w now p b).err = .none
+  · obtain ⟨a, b1, c, _⟩ := h2 he
+    intro _
+    exact ⟨by rw [a]; rfl, c⟩
+  · obtain ⟨_, _, c⟩ := h3 he
+    intro hu
+    obtain ⟨c1, c2⟩ := c hu
+    have := (h c1).1
+    rw [c2] at this; cases this
+
+theorem handleBroken_inv {w : World} {now : Int} {p : PeerSt} {b : BackendSt} (h : Inv p) :
+    Inv (handleBroken w now p b).p := by
+  unfold handleBroken
+  simp only []
+  have hq : Inv (query w now p b).1 := query_inv h
+  repeat' split
+  all_goals first | exact hq | exact initAllTables_inv hq
+
+/-- `updateIdleStatus` -/
+def idleStep (w : World) (now : Int) (p : PeerSt) : PeerSt :=
+  if !p.idling && ((p.lastQuery == 0 && w.mainRestart < now - w.cfg.idleTimeout) ||
+      (p.lastQuery > 0 && p.lastQuery < now - w.cfg.idleTimeout)) then { p with idling := true } else p
+
+/-- `initTablesIfRestartRequiredError` -/
+def finishStep (w : World) (now : Int) (p : PeerSt) (b : BackendSt) (ran : Bool) (err : StepErr) : TickResult :=
+  match err with
+  | .restartRequired =>
+    let r := initAllTables w now p b
+    { p := r.p, b := r.b, ran := ran, err := r.err }
+  | e => { p := p, b := b, ran := ran, err := e }
+
+/-- the once-a-minute refresh of timeperiods and groups -/
+def tpStep (w : World) (now : Int) (p : PeerSt) (b : BackendSt) (cache0 : Option Cache) :
+    Option TickResult × PeerSt × BackendSt × Option Cache :=
+  match cache0 with
+  | some c =>
+    if !p.idling && p.lastTpMinute != (now / 60) % 60 then
+      let r := updateFullList w now ["timeperiods", "hostgroups", "servicegroups"] { p with lastTpMinute := (now / 60) % 60 } b c
+      match r.err with
+      | .none =>
+        let lt := localtimeStep w now (withCache r) r.b
+        (match lt.2.2 with
+         | some _ => (some (finishStep w now lt.1 lt.2.1 false (.failed "localtime")), lt.1, lt.2.1, some r.cache)
+         | none => (none, lt.1, lt.2.1, some r.cache))
+      | e => (some (finishStep w now (withCache r) r.b false e), r.p, r.b, some r.cache)
+    else (none, p, b, some c)
+  | none => (none, p, b, none)
+
+/-- the delta run of the loop body -/
+def deltaRun (w : World) (now : Int) (p : PeerSt) (b : BackendSt) (c : Cache) (fromT : Int) : TickResult :=
+  let r := updateDelta w now p b c fromT
+  finishStep w now (withCache r) r.b true r.err
+
+/-- the rebuild run of the loop body -/
+def initRun (w : World) (now : Int) (p : PeerSt) (b : BackendSt) : TickResult :=
+  let r := initAllTables w now p b
+  finishStep w now r.p r.b true r.err
+
+/-- when the next update run is due: the idle interval applies while the peer idles -/
+def nextDue (w : World) (lastUpdate : Int) (p : PeerSt) : Int :=
+  lastUpdate + (if p.idling then w.cfg.idleInterval else w.cfg.updateInterval)
+
+/-- the run of an `Up` / `Syncing` peer that holds data: the periodic full update when it is due, else a delta -/
+def upRun (w : World) (now lastUpdate : Int) (p : PeerSt) (b : BackendSt) (c : Cache) : TickResult :=
+  if !p.idling && w.cfg.fullUpdateInterval > 0 && now > p.lastFullUpdate + w.cfg.fullUpdateInterval then
+    let r := updateFullList w now updateTables p b c
+    match r.err with
+    | .none =>
+      if r.p.cache.isNone then finishStep w now (withCache r) r.b true (.failed "peer went offline during the update")
+      else finishStep w now { ((withCache r).recovered now) with lastUpdate := now, lastFullUpdate := now } r.b true .none
+    | e => finishStep w now (withCache r) r.b true e
+  else
+    let fp : Int × PeerSt := if p.forceFull then ((0 : Int), { p with forceFull := false }) else (lastUpdate, p)
+    deltaRun w now fp.2 b c fp.1
+
+/-- the per-state dispatch of `periodicUpdate` -/
+def dispatch (w : World) (now lastUpdate : Int) (status0 : PeerState) (p : PeerSt) (b : BackendSt)
+    (cache1 : Option Cache) : TickResult :=
+  match status0 with
+  | .broken =>
+    let r := handleBroken w now p b
+    finishStep w now r.p r.b true r.err
+  | .down | .pending => initRun w now p b
+  | .warning =>
+    (match cache1 with
+     | none => initRun w now p b
+     | some c => deltaRun w now p b c lastUpdate)
+  | .up | .syncing =>
+    (match cache1 with
+     | none => initRun w now p b
+     | some c => upRun w now lastUpdate p b c)
+
+/-- nothing happens before the next run is due; then the update time is stamped and the state decides -/
+def mainStep (w : World) (now lastUpdate : Int) (status0 : PeerState) (p : PeerSt) (b : BackendSt)
+    (cache1 : Option Cache) : TickResult :=
+  if now < nextDue w lastUpdate p then { p := p, b := b, ran := false, err := .none }
+  else dispatch w now lastUpdate status0 { p with lastUpdate := now } b cache1
+
+theorem tick_eq (w : World) (now : Int) (p : PeerSt) (b : BackendSt) :
+    tick w now p b =
+      match tpStep w now (idleStep w now p) b p.cache with
+      | (some res, _, _, _) => res
+      | (none, p', b', cache1) => mainStep w now p.lastUpdate p.status p' b' cache1 := by
+  rfl
+
+theorem idleStep_inv {w : World} {now : Int} {p : PeerSt} (h : Inv p) : Inv (idleStep w now p) := by
+  unfold idleStep; split
+  · exact h
+  · exact h
+
+theorem finishStep_inv {w : World} {now : Int} {p : PeerSt} {b : BackendSt} {ran : Bool} {err : StepErr}
+    (h : Inv p) : Inv (finishStep w now p b ran err).p := by
+  unfold finishStep
+  split
+  · exact initAllTables_inv h
+  · exact h
+
+theorem updateFullList_inv {w : World} {now : Int} {ts : List String} {p : PeerSt} {b : BackendSt} {c : Cache}
+    (h : Inv p) : Inv (updateFullList w now ts p b c).p := (updateFullList_steps2 w now ts p b c).inv h
+
+theorem updateDelta_inv {w : World} {now : Int} {p : PeerSt} {b : BackendSt} {c : Cache} {fromT : Int}
+    (h : Inv p) : Inv (updateDelta w now p b c fromT).p := (updateDelta_steps2 w now p b c fromT).inv h
+
+theorem localtimeStep_inv {w : World} {now : Int} {p : PeerSt} {b : BackendSt} (h : Inv p) :
+    Inv (localtimeStep w now p b).1 := (localtimeStep_spec w now p b).1.steps2.inv h
+
+theorem tpStep_inv {w : World} {now : Int} {p : PeerSt} {b : BackendSt} {c0 : Option Cache} (h : Inv p) :
+    (∀ res, (tpStep w now p b c0).1 = some res → Inv res.p) ∧ Inv (tpStep w now p b c0).2.1 := by
+  unfold tpStep
+  split
+  · split
+    · simp only []
+      have h0 : Inv ({ p with lastTpMinute := (now / 60) % 60 } : PeerSt) := h
+      have hr := updateFullList_inv (w := w) (now := now) (ts := ["timeperiods", "hostgroups", "servicegroups"])
+        (b := b) (c := (by assumption)) h0
+      generalize updateFullList w now ["timeperiods", "hostgroups", "servicegroups"] _ b _ = r at hr
+      split
+      · have hl := localtimeStep_inv (w := w) (now := now) (b := r.b) (withCache_inv hr)
+        split
+        · exact ⟨(fun res hres => by cases hres; exact finishStep_inv hl), hl⟩
+        · exact ⟨(fun res hres => by cases hres), hl⟩
+      · exact ⟨(fun res hres => by cases hres; exact finishStep_inv (withCache_inv hr)), hr⟩
+    · exact ⟨(fun res hres => by cases hres), h⟩
+  · exact ⟨(fun res hres => by cases hres), h⟩
+
+theorem deltaRun_inv {w : World} {now : Int} {p : PeerSt} {b : BackendSt} {c : Cache} {fromT : Int} (h : Inv p) :
+    Inv (deltaRun w now p b c fromT).p := finishStep_inv (withCache_inv (updateDelta_inv h))
+
+theorem initRun_inv {w : World} {now : Int} {p : PeerSt} {b : BackendSt} (h : Inv p) :
+    Inv (initRun w now p b).p := finishStep_inv (initAllTables_inv h)
+
+theorem upRun_inv {w : World} {now lastUpdate : Int} {p : PeerSt} {b : BackendSt} {c : Cache} (h : Inv p) :
+    Inv (upRun w now lastUpdate p b c).p := by
+  unfold upRun
+  split
+  · simp only []
+    have hr := updateFullList_inv (w := w) (now := now) (ts := updateTables) (b := b) (c := c) h
+    generalize updateFullList w now updateTables p b c = r at hr
+    split
+    · split
+      · exact finishStep_inv (withCache_inv hr)
+      · rename_i hc
+        refine finishStep_inv ?_
+        have : (withCache r).cache.isSome := by
+          rw [withCache_cache_isSome]
+          cases hx : r.p.cache
+          · simp [hx] at hc
+          · rfl
+        exact fun _ => ⟨this, rfl⟩
+    · exact finishStep_inv (withCache_inv hr)
+  · refine deltaRun_inv ?_
+    split
+    · exact h
+    · exact h
+
+theorem dispatch_inv {w : World} {now lastUpdate : Int} {s0 : PeerState} {p : PeerSt} {b : BackendSt}
+    {c1 : Option Cache} (h : Inv p) : Inv (dispatch w now lastUpdate s0 p b c1).p := by
+  unfold dispatch
+  split
+  · exact finishStep_inv (handleBroken_inv h)
+  · exact initRun_inv h
+  · exact initRun_inv h
+  · split
+    · exact initRun_inv h
+    · exact deltaRun_inv h
+  · split
+    · exact initRun_inv h
+    · exact upRun_inv h
+  · split
+    · exact initRun_inv h
+    · exact upRun_inv h
+
+theorem mainStep_inv {w : World} {now lastUpdate : Int} {s0 : PeerState} {p : PeerSt} {b : BackendSt}
+    {c1 : Option Cache} (h : Inv p) : Inv (mainStep w now lastUpdate s0 p b c1).p := by
+  unfold mainStep
+  split
+  · exact h
+  · exact dispatch_inv (p := { p with lastUpdate := now }) h
+
+theorem tick_inv {w : World} {now : Int} {p : PeerSt} {b : BackendSt} (h : Inv p) : Inv (tick w now p b).p := by
+  rw [tick_eq]
+  obtain ⟨h1, h2⟩ := tpStep_inv (w := w) (now := now) (b := b) (c0 := p.cache) (idleStep_inv (w := w) (now := now) h)
+  generalize tpStep w now (idleStep w now p) b p.cache = tp at h1 h2
+  obtain ⟨res, p', b', c1⟩ := tp
+  cases res with
+  | some res => exact h1 res rfl
+  | none => exact mainStep_inv h2
+
+/-! ## client queries and idling -/
+
+/-- `ResumeFromIdle`: an `Up` peer with data refreshes the timeperiods and runs a delta update at once; any other
+    peer is made due for its next run -/
+def resume (w : World) (now : Int) (p : PeerSt) (b : BackendSt) : PeerSt × BackendSt :=
+  match p.status, p.cache with
+  | .up, some c =>
+    let r := updateFullList w now ["timeperiods"] p b c
+    (match r.err with
+     | .none =>
+       (match (withCache r).cache with
+        | some c' =>
+          let r2 := updateDelta w now (withCache r) r.b c' (withCache r).lastUpdate
+          (withCache r2, r2.b)
+        | none => (withCache r, r.b))
+     | _ => (withCache r, r.b))
+  | _, _ => ({ p with lastUpdate := now - w.cfg.updateInterval }, b)
+
+theorem clientQuery_eq (w : World) (now : Int) (p : PeerSt) (b : BackendSt) :
+    clientQuery w now p b =
+      if p.idling then
+        ({ (resume w now { p with lastQuery := now, idling := false } b).1 with lastQuery := now },
+         (resume w now { p with lastQuery := now, idling := false } b).2)
+      else ({ p with lastQuery := now }, b) := by
+  rfl
+
+theorem resume_inv {w : World} {now : Int} {p : PeerSt} {b : BackendSt} (h : Inv p) : Inv (resume w now p b).1 := by
+  unfold resume
+  split
+  · rename_i c _ _
+    simp only []
+    have hr := updateFullList_inv (w := w) (now := now) (ts := ["timeperiods"]) (b := b) (c := c) h
+    generalize updateFullList w now ["timeperiods"] p b c = r at hr
+    split
+    · split
+      · exact withCache_inv (updateDelta_inv (withCache_inv hr))
+      · exact withCache_inv hr
+    · exact withCache_inv hr
+  · exact h
+
+/-- `ResumeFromIdle` leaves the idle flag alone -/
+theorem resume_idling (w : World) (now : Int) (p : PeerSt) (b : BackendSt) : (resume w now p b).1.idling = p.idling := by
+  unfold resume
+  split
+  · rename_i c _ _
+    simp only []
+    have hr := (updateFullList_steps2 w now ["timeperiods"] p b c).frame.1
+    generalize updateFullList w now ["timeperiods"] p b c = r at hr
+    split
+    · split
+      · rename_i c' _
+        rw [(withCache_frame _).1, (updateDelta_steps2 ..).frame.1, (withCache_frame _).1, hr]
+      · rw [(withCache_frame _).1, hr]
+    · rw [(withCache_frame _).1, hr]
+  · rfl
+
+theorem clientQuery_inv {w : World} {now : Int} {p : PeerSt} {b : BackendSt} (h : Inv p) :
+    Inv (clientQuery w now p b).1 := by
+  rw [clientQuery_eq]
+  split
+  · exact resume_inv (p := { p with lastQuery := now, idling := false }) h
+  · exact h
+
+/-! ## when the loop body leaves the backend alone -/
+
+/-- the peer idles after this run's `updateIdleStatus` -/
+def idlesAt (w : World) (now : Int) (p : PeerSt) : Bool :=
+  p.idling || ((p.lastQuery == 0 && w.mainRestart < now - w.cfg.idleTimeout) ||
+      (p.lastQuery > 0 && p.lastQuery < now - w.cfg.idleTimeout))
+
+theorem idleStep_idling (w : World) (now : Int) (p : PeerSt) : (idleStep w now p).idling = idlesAt w now p := by
+  unfold idleStep idlesAt
+  cases hi : p.idling <;> simp [hi]
+  split <;> simp_all
+
+theorem idleStep_fields (w : World) (now : Int) (p : PeerSt) :
+    (idleStep w now p).lastTpMinute = p.lastTpMinute ∧ (idleStep w now p).status = p.status ∧
+      (idleStep w now p).cache = p.cache ∧ (idleStep w now p).lastUpdate = p.lastUpdate := by
+  unfold idleStep; split <;> exact ⟨rfl, rfl, rfl, rfl⟩
+
+/-- no request is sent while the minute refresh is not due (idling, same minute, or no data) and the next run
+    is not due either -/
+theorem tick_quiet (w : World) (now : Int) (p : PeerSt) (b : BackendSt)
+    (htp : idlesAt w now p = true ∨ p.lastTpMinute = (now / 60) % 60 ∨ p.cache = none)
+    (hdue : now < p.lastUpdate + (if idlesAt w now p then w.cfg.idleInterval else w.cfg.updateInterval)) :
+    tick w now p b = { p := idleStep w now p, b := b, ran := false, err := .none } := by
+  rw [tick_eq]
+  have htp' : tpStep w now (idleStep w now p) b p.cache = (none, idleStep w now p, b, p.cache) := by
+    unfold tpStep
+    cases hc : p.cache with
+    | none => rfl
+    | some c =>
+      simp only []
+      have : (!(idleStep w now p).idling && (idleStep w now p).lastTpMinute != (now / 60) % 60) = false := by
+        rw [idleStep_idling, (idleStep_fields w now p).1]
+        rcases htp with h | h | h
+        · simp [h]
+        · simp [h]
+        · rw [hc] at h; cases h
+      rw [if_neg (by simp [this])]
+  rw [htp']
+  simp only []
+  unfold mainStep nextDue
+  rw [idleStep_idling, if_pos hdue]
+
+/-! ## source rotation arithmetic -/
+
+theorem fail_sources (w : World) (p : PeerSt) (now : Int) (msg : String) : (p.fail w now msg).sources = p.sources := by
+  have := fail_rest w p now msg
+  simp only [rest, Prod.mk.injEq] at this
+  exact this.1
+
+theorem next_mod {p : PeerSt} (h : p.addrIdx < p.sources.length) :
+    nextIdx p = (p.addrIdx + 1) % p.sources.length := by
+  unfold nextIdx
+  split
+  · have : p.addrIdx + 1 = p.sources.length := by omega
+    rw [this, Nat.mod_self]
+  · rw [Nat.mod_eq_of_lt (by omega)]
+
+theorem mod_two {a n : Nat} (h : a < 2 * n) : a % n = if a < n then a else a - n := by
+  split
+  · rename_i h1; exact Nat.mod_eq_of_lt h1
+  · rename_i h1
+    rw [Nat.mod_eq_sub_mod (by omega), Nat.mod_eq_of_lt (by omega)]
+
+/-- starting at `i`, each `j < n` is reached after exactly one number of steps in `1..n` -/
+theorem rotation_arith {i j n : Nat} (hi : i < n) (hj : j < n) :
+    ∃ k, 1 ≤ k ∧ k ≤ n ∧ (i + k) % n = j ∧ ∀ k', 1 ≤ k' → k' ≤ n → (i + k') % n = j → k' = k := by
+  refine ⟨if i < j then j - i else j + n - i, ?_, ?_, ?_, ?_⟩
+  · split <;> omega
+  · split <;> omega
+  · rw [mod_two (by split <;> omega)]
+    split <;> split <;> omega
+  · intro k' h1 h2 h3
+    rw [mod_two (by omega)] at h3
+    split at h3 <;> split <;> omega
+
+/-! ## restart detection -/
+
+/-- the reply of a full refresh as `UpdateFullTable` orders it -/
+def sortedReply (w : World) (t : String) (rows : List ReplyRow) : List ReplyRow :=
+  (rows.map (fun r => (coerceRow (tableOf w t) r, r))).mergeSort (fun a b => keyLe (tableOf w t) a.1 b.1) |>.map (·.2)
+
+theorem sortedReply_length (w : World) (t : String) (rows : List ReplyRow) : (sortedReply w t rows).length = rows.length := by
+  simp [sortedReply, List.length_mergeSort]
+
+theorem sortedReply_singleton (w : World) (t : String) (r : ReplyRow) : sortedReply w t [r] = [r] := by
+  simp [sortedReply]
+
+theorem query_programStart (w : World) (now : Int) (p : PeerSt) (b : BackendSt) (handled : Bool) :
+    (query w now p b handled).1.programStart = p.programStart ∧ (query w now p b handled).1.corePid = p.corePid := by
+  have := (query_steps w now p b handled).rest1
+  simp only [rest1, Prod.mk.injEq] at this
+  exact ⟨this.2.2.2.2.2.2.2.2.2.1, this.2.2.2.2.2.2.2.2.2.2.1⟩
+
+theorem updateFullTable_eq (w : World) (now : Int) (p : PeerSt) (b : BackendSt) (c : Cache) (t : String) :
+    updateFullTable w now p b c t =
+      if (dynamicCols w.schema p.flags t).isEmpty then { p := p, b := b, cache := c, err := .none }
+      else
+        let q := query w now p b
+        match q.2.2 with
+        | some _ => { p := q.1, b := q.2.1, cache := c, err := .failed "full" }
+        | none =>
+          let reply := sortedReply w t (q.2.1.rows t)
+          if reply.length != (c.get t).length then { p := q.1, b := q.2.1, cache := c, err := .restartRequired }
+          else if t == "status" &&
+              (match reply with
+               | [st] => q.1.programStart != 0 && q.1.corePid != 0 &&
+                   (replyInt st "program_start" != q.1.programStart || replyInt st "nagios_pid" != q.1.corePid)
+               | _ => false) then
+            { p := q.1, b := q.2.1, cache := c, err := .restartRequired }
+          else
+            { p := if t == "status" then
+                  { q.1 with flags := q.1.flags ||| (match reply with
+                      | st :: _ => versionFlag w.schema (replyStr st "livestatus_version") | [] => 0) }
+                else q.1,
+              b := q.2.1,
+              cache := c.set t (((c.get t).zip reply).map fun (old, r) => updateRow (dynamicCols w.schema p.flags t) true old r),
+              err := .none } := by
+  unfold updateFullTable sortedReply tableOf
+  simp only [ite_self]
+  rfl
+
+/-- a status refresh that sees another core start or pid asks for a rebuild and writes nothing -/
+theorem updateFullTable_restart_status (w : World) (now : Int) (p : PeerSt) (b : BackendSt) (c : Cache) (st : ReplyRow)
+    (hdyn : (dynamicCols w.schema p.flags "status").isEmpty = false)
+    (hq : (query w now p b).2.2 = none) (hrow : b.rows "status" = [st])
+    (hps : p.programStart ≠ 0) (hpid : p.corePid ≠ 0)
+    (hdiff : replyInt st "program_start" ≠ p.programStart ∨ replyInt st "nagios_pid" ≠ p.corePid) :
+    updateFullTable w now p b c "status" =
+      { p := (query w now p b).1, b := (query w now p b).2.1, cache := c, err := .restartRequired } := by
+  rw [updateFullTable_eq, hdyn]
+  simp only [Bool.false_eq_true, if_false, hq]
+  rw [query_rows, hrow, sortedReply_singleton, (query_programStart w now p b true).1, (query_programStart w now p b true).2]
+  split
+  · rfl
+  · rw [if_pos]
+    simp only [bne_iff_ne, ne_eq, Bool.and_eq_true, Bool.or_eq_true, beq_self_eq_true, true_and]
+    exact ⟨⟨hps, hpid⟩, hdiff⟩
+
+/-- a full refresh whose reply has another number of rows than the table holds asks for a rebuild and writes nothing -/
+theorem updateFullTable_restart_count (w : World) (now : Int) (p : PeerSt) (b : BackendSt) (c : Cache) (t : String)
+    (hdyn : (dynamicCols w.schema p.flags t).isEmpty = false)
+    (hq : (query w now p b).2.2 = none) (hlen : (b.rows t).length ≠ (c.get t).length) :
+    updateFullTable w now p b c t =
+      { p := (query w now p b).1, b := (query w now p b).2.1, cache := c, err := .restartRequired } := by
+  rw [updateFullTable_eq, hdyn]
+  simp only [Bool.false_eq_true, if_false, hq]
+  rw [query_rows, sortedReply_length, if_pos (by simpa using hlen)]
+
+theorem updateFullObjects_restart_count (w : World) (now : Int) (p : PeerSt) (b : BackendSt) (c : Cache) (t : String)
+    (hq : (query w now p b).2.2 = none) (hlen : (b.rows t).length ≠ (c.get t).length) :
+    updateFullObjects w now p b c t =
+      { p := (query w now p b).1, b := (query w now p b).2.1, cache := c, err := .restartRequired } := by
+  unfold updateFullObjects
+  simp only [hq]
+  rw [query_rows, if_pos (by simpa using hlen)]
+
+theorem updateTimeperiods_restart_count (w : World) (now : Int) (p : PeerSt) (b : BackendSt) (c : Cache)
+    (hq : (query w now p b).2.2 = none) (hlen : (b.rows "timeperiods").length ≠ (c.get "timeperiods").length) :
+    updateTimeperiods w now p b c =
+      { p := (query w now p b).1, b := (query w now p b).2.1, cache := c, err := .restartRequired } := by
+  unfold updateTimeperiods
+  simp only [hq]
+  rw [query_rows, if_pos (by simpa [List.length_mergeSort] using hlen)]
+
+
+/-! ## `composeTimestampFilter` -/
+
+/-- a timestamp lies in one of the blocks -/
+def inBlocks (bs : List (Int × Int)) (t : Int) : Prop := ∃ blk ∈ bs, blk.1 ≤ t ∧ t ≤ blk.2
+
+theorem go_mem (t : Int) : ∀ (xs : List Int) (lo hi : Int), lo ≤ hi →
+    (inBlocks (tsBlocks.go lo hi xs) t ↔ (lo ≤ t ∧ t ≤ hi) ∨ t ∈ xs)
+  | [], lo, hi, _ => by
+    unfold tsBlocks.go inBlocks
+    simp
+  | x :: xs, lo, hi, h => by
+    unfold tsBlocks.go
+    split
+    · rename_i hx
+      have hx' : hi = x - 1 := by simpa using hx
+      rw [go_mem t xs lo x (by omega)]
+      simp only [List.mem_cons]
+      constructor
+      · rintro (h1 | h1)
+        · by_cases ht : t = x
+          · exact .inr (.inl ht)
+          · exact .inl ⟨h1.1, by omega⟩
+        · exact .inr (.inr h1)
+      · rintro (h1 | h1 | h1)
+        · exact .inl ⟨h1.1, by omega⟩
+        · exact .inl ⟨by omega, by omega⟩
+        · exact .inr h1
+    · have ih := go_mem t xs x x (Int.le_refl x)
+      unfold inBlocks at ih ⊢
+      simp only [List.mem_cons, exists_eq_or_imp]
+      rw [ih]
+      constructor
+      · rintro (h1 | h1 | h1)
+        · exact .inl h1
+        · exact .inr (.inl (by omega))
+        · exact .inr (.inr h1)
+      · rintro (h1 | h1 | h1)
+        · exact .inl h1
+        · exact .inr (.inl ⟨by omega, by omega⟩)
+        · exact .inr (.inr h1)
+
+theorem go_length : ∀ (xs : List Int) (lo hi : Int), (tsBlocks.go lo hi xs).length ≤ xs.length + 1
+  | [], lo, hi => by unfold tsBlocks.go; simp
+  | x :: xs, lo, hi => by
+    unfold tsBlocks.go
+    split
+    · have := go_length xs lo x; simp only [List.length_cons]; omega
+    · have := go_length xs x x; simp only [List.length_cons]; omega
+
+/-- blocks of a strictly ascending list: in order, well formed, and never adjacent (so no two could be merged) -/
+theorem go_separated : ∀ (xs : List Int) (lo hi : Int), lo ≤ hi → (∀ x ∈ xs, hi < x) → xs.Pairwise (· < ·) →
+    (tsBlocks.go lo hi xs).Pairwise (fun a b => a.2 + 1 < b.1) ∧
+      (∀ blk ∈ tsBlocks.go lo hi xs, lo ≤ blk.1 ∧ blk.1 ≤ blk.2)
+  | [], lo, hi, h, _, _ => by
+    unfold tsBlocks.go
+    simp [h]
+  | x :: xs, lo, hi, h, hlt, hp => by
+    unfold tsBlocks.go
+    have hx : hi < x := hlt x List.mem_cons_self
+    rw [List.pairwise_cons] at hp
+    split
+    · obtain ⟨i1, i2⟩ := go_separated xs lo x (by omega) hp.1 hp.2
+      exact ⟨i1, i2⟩
+    · rename_i hne
+      have hne' : hi ≠ x - 1 := by simpa using hne
+      obtain ⟨i1, i2⟩ := go_separated xs x x (Int.le_refl x) hp.1 hp.2
+      refine ⟨List.pairwise_cons.2 ⟨fun blk hb => ?_, i1⟩, fun blk hb => ?_⟩
+      · have := (i2 blk hb).1
+        show hi + 1 < blk.1
+        omega
+      · rcases List.mem_cons.1 hb with hb | hb
+        · subst hb; exact ⟨Int.le_refl _, h⟩
+        · have := i2 blk hb
+          exact ⟨by omega, this.2⟩
+
+
+/-! ## `prepareDataUpdateSet` -/
+
+/-- the backend has `last_update` and the table stores it -/
+def hasLU (w : World) (flags : Nat) (tab : Table) : Bool :=
+  (flags &&& flagBit w.schema "HasLastUpdateColumn") != 0 && (tab.col? "last_update").isSome
+
+/-- the table stores `last_check` -/
+def hasLC (tab : Table) : Bool := (tab.col? "last_check").isSome
+
+/-- `checkChangedIntValues` over the dynamic columns: some int / int64 column of the reply differs from the cache -/
+def intChanged (dyn : List Column) (old : Row) (r : ReplyRow) : Bool :=
+  dyn.any fun col =>
+    match col.dtype with
+    | .int => checkInt8 (replyInt r col.name) != old.int col.name
+    | .int64 => replyInt r col.name != old.int col.name
+    | _ => false
+
+/-- what happens to a cached row that a reply row addresses: `none` = skipped, `some true` = every delivered
+    dynamic column is copied, `some false` = only the numeric ones -/
+def decision (w : World) (flags : Nat) (tab : Table) (old : Row) (r : ReplyRow) : Option Bool :=
+  let luChanged := replyInt r "last_update" != old.int "last_update"
+  let lcChanged := replyInt r "last_check" != old.int "last_check"
+  if hasLU w flags tab && hasLC tab then (if luChanged || lcChanged then some true else none)
+  else if hasLU w flags tab then (if luChanged then some true else none)
+  else if !hasLC tab then some true
+  else some (lcChanged || intChanged (dynamicCols w.schema flags tab.name) old r)
+
+/-- the cached row after a reply row addressed it -/
+def rowAfter (w : World) (flags : Nat) (tab : Table) (old : Row) (r : ReplyRow) : Row :=
+  match decision w flags tab old r with
+  | none => old
+  | some full => updateRow (dynamicCols w.schema flags tab.name) full old r
+
+/-- one reply row applied to the rows of the table -/
+def deltaStep (w : World) (flags : Nat) (tab : Table) (rows : List Row) (x : Nat × ReplyRow) : List Row :=
+  match rows[x.1]? with
+  | none => rows
+  | some old => rows.set x.1 (rowAfter w flags tab old x.2)
+
+/-- the reply sorted by primary key, as `insertDeltaDataResult` receives it -/
+def sortedDelta (tab : Table) (reply : List ReplyRow) : List (Row × ReplyRow) :=
+  (reply.map fun r => (coerceRow tab r, r)).mergeSort (fun a b => keyLe tab a.1 b.1)
+
+/-- the cached row a reply row addresses through the index: the last row carrying its key -/
+def lookup (tab : Table) (cached : List Row) (r : ReplyRow) : Option (Nat × ReplyRow) :=
+  match (cached.zipIdx.reverse.find? (fun (c, _) => c.key tab == replyKey tab r)) with
+  | some (_, i) => some (i, r)
+  | none => none
+
+/-- which cached row every reply row addresses: by position when the reply has as many rows as the table, else by key -/
+def addressed (tab : Table) (cached : List Row) (reply : List ReplyRow) : Option (List (Nat × ReplyRow)) :=
+  if (sortedDelta tab reply).length == cached.length then
+    some ((List.range (sortedDelta tab reply).length).zip ((sortedDelta tab reply).map (·.2)))
+  else (sortedDelta tab reply).mapM fun x => lookup tab cached x.2
+
+theorem set_same (rows : List Row) (i : Nat) (old : Row) (h : rows[i]? = some old) : rows.set i old = rows := by
+  apply List.ext_getElem?
+  intro j
+  by_cases hj : i = j
+  · subst hj
+    rw [List.getElem?_set_self (by
+      rcases Nat.lt_or_ge i rows.length with hl | hl
+      · exact hl
+      · rw [List.getElem?_eq_none hl] at h; cases h), h]
+  · rw [List.getElem?_set_ne hj]
+
+theorem applyDelta_eq (w : World) (flags : Nat) (tab : Table) (cached : List Row) (reply : List ReplyRow) :
+    applyDelta w flags tab cached reply =
+      (addressed tab cached reply).map fun upd => upd.foldl (deltaStep w flags tab) cached := by
+  unfold applyDelta
+  simp only []
+  have hstep : ∀ (rows : List Row) (x : Nat × ReplyRow),
+      (match rows[x.1]? with
+        | none => rows
+        | some old =>
+          match (if ((flags &&& flagBit w.schema "HasLastUpdateColumn" != 0 && (tab.col? "last_update").isSome) &&
+                (tab.col? "last_check").isSome) = true then
+              if (replyInt x.2 "last_update" != old.int "last_update" || replyInt x.2 "last_check" != old.int "last_check") = true
+              then some true else none
+            else if (flags &&& flagBit w.schema "HasLastUpdateColumn" != 0 && (tab.col? "last_update").isSome) = true then
+              if (replyInt x.2 "last_update" != old.int "last_update") = true then some true else none
+            else if (!(tab.col? "last_check").isSome) = true then some true
+            else some (replyInt x.2 "last_check" != old.int "last_check" ||
+              (dynamicCols w.schema flags tab.name).any fun col =>
+                match col.dtype with
+                | .int => checkInt8 (replyInt x.2 col.name) != old.int col.name
+                | .int64 => replyInt x.2 col.name != old.int col.name
+                | _ => false)) with
+          | none => rows
+          | some full => rows.set x.1 (updateRow (dynamicCols w.schema flags tab.name) full old x.2)) =
+        deltaStep w flags tab rows x := by
+    intro rows x
+    unfold deltaStep rowAfter
+    cases hx : rows[x.1]? with
+    | none => rfl
+    | some old =>
+      simp only []
+      show (match decision w flags tab old x.2 with
+        | none => rows
+        | some full => rows.set x.1 (updateRow (dynamicCols w.schema flags tab.name) full old x.2)) = _
+      cases decision w flags tab old x.2 with
+      | none => simp only []; exact (set_same rows x.1 old hx).symm
+      | some full => rfl
+  have hfold : ∀ (upd : List (Nat × ReplyRow)) (rows : List Row),
+      upd.foldl (fun rows (x : Nat × ReplyRow) =>
+        match rows[x.1]? with
+        | none => rows
+        | some old =>
+          match (if ((flags &&& flagBit w.schema "HasLastUpdateColumn" != 0 && (tab.col? "last_update").isSome) &&
+                (tab.col? "last_check").isSome) = true then
+              if (replyInt x.2 "last_update" != old.int "last_update" || replyInt x.2 "last_check" != old.int "last_check") = true
+              then some true else none
+            else if (flags &&& flagBit w.schema "HasLastUpdateColumn" != 0 && (tab.col? "last_update").isSome) = true then
+              if (replyInt x.2 "last_update" != old.int "last_update") = true then some true else none
+            else if (!(tab.col? "last_check").isSome) = true then some true
+            else some (replyInt x.2 "last_check" != old.int "last_check" ||
+              (dynamicCols w.schema flags tab.name).any fun col =>
+                match col.dtype with
+                | .int => checkInt8 (replyInt x.2 col.name) != old.int col.name
+                | .int64 => replyInt x.2 col.name != old.int col.name
+                | _ => false)) with
+          | none => rows
+          | some full => rows.set x.1 (updateRow (dynamicCols w.schema flags tab.name) full old x.2)) rows =
+        upd.foldl (deltaStep w flags tab) rows := by
+    intro upd
+    induction upd with
+    | nil => intro rows; rfl
+    | cons x xs ih => intro rows; rw [List.foldl_cons, List.foldl_cons, hstep, ih]
+  show (match addressed tab cached reply with
+    | none => none
+    | some upd => some (upd.foldl _ cached)) = _
+  cases addressed tab cached reply with
+  | none => rfl
+  | some upd => exact congrArg some (hfold upd cached)
+
+/-! ### the fold over the addressed rows -/
+
+theorem deltaStep_length (w : World) (flags : Nat) (tab : Table) (rows : List Row) (x : Nat × ReplyRow) :
+    (deltaStep w flags tab rows x).length = rows.length := by
+  unfold deltaStep
+  split
+  · rfl
+  · exact List.length_set
+
+theorem deltaStep_other (w : World) (flags : Nat) (tab : Table) (rows : List Row) (x : Nat × ReplyRow) (j : Nat)
+    (h : x.1 ≠ j) : (deltaStep w flags tab rows x)[j]? = rows[j]? := by
+  unfold deltaStep
+  split
+  · rfl
+  · exact List.getElem?_set_ne h
+
+theorem deltaStep_self (w : World) (flags : Nat) (tab : Table) (rows : List Row) (x : Nat × ReplyRow) (old : Row)
+    (h : rows[x.1]? = some old) : (deltaStep w flags tab rows x)[x.1]? = some (rowAfter w flags tab old x.2) := by
+  unfold deltaStep
+  rw [h]
+  simp only []
+  apply List.getElem?_set_self
+  rcases Nat.lt_or_ge x.1 rows.length with hl | hl
+  · exact hl
+  · rw [List.getElem?_eq_none hl] at h; cases h
+
+theorem foldl_deltaStep_length (w : World) (flags : Nat) (tab : Table) :
+    ∀ (upd : List (Nat × ReplyRow)) (rows : List Row), (upd.foldl (deltaStep w flags tab) rows).length = rows.length
+  | [], _ => rfl
+  | x :: xs, rows => by rw [List.foldl_cons, foldl_deltaStep_length w flags tab xs, deltaStep_length]
+
+theorem foldl_deltaStep_other (w : World) (flags : Nat) (tab : Table) (j : Nat) :
+    ∀ (upd : List (Nat × ReplyRow)) (rows : List Row), (∀ x ∈ upd, x.1 ≠ j) →
+      (upd.foldl (deltaStep w flags tab) rows)[j]? = rows[j]?
+  | [], _, _ => rfl
+  | x :: xs, rows, h => by
+    rw [List.foldl_cons, foldl_deltaStep_other w flags tab j xs _ (fun y hy => h y (List.mem_cons_of_mem _ hy)),
+      deltaStep_other _ _ _ _ _ _ (h x List.mem_cons_self)]
+
+/-- `x` is the only entry of `upd` that addresses its row, and it occurs once -/
+def OnlyOnce (upd : List (Nat × ReplyRow)) (x : Nat × ReplyRow) : Prop :=
+  ∃ pre post, upd = pre ++ x :: post ∧ (∀ y ∈ pre, y.1 ≠ x.1) ∧ (∀ y ∈ post, y.1 ≠ x.1)
+
+theorem foldl_deltaStep_once (w : World) (flags : Nat) (tab : Table) (upd : List (Nat × ReplyRow)) (rows : List Row)
+    (x : Nat × ReplyRow) (old : Row) (hx : OnlyOnce upd x) (hold : rows[x.1]? = some old) :
+    (upd.foldl (deltaStep w flags tab) rows)[x.1]? = some (rowAfter w flags tab old x.2) := by
+  obtain ⟨pre, post, rfl, h1, h2⟩ := hx
+  rw [List.foldl_append, List.foldl_cons, foldl_deltaStep_other w flags tab x.1 post _ h2]
+  apply deltaStep_self
+  rw [foldl_deltaStep_other w flags tab x.1 pre _ h1]
+  exact hold
+
+theorem onlyOnce_of_nodup : ∀ (upd : List (Nat × ReplyRow)) (x : Nat × ReplyRow), (upd.map (·.1)).Nodup → x ∈ upd →
+    OnlyOnce upd x
+  | [], _, _, h => by cases h
+  | y :: ys, x, hn, hm => by
+    rw [List.map_cons, List.nodup_cons] at hn
+    rcases List.mem_cons.1 hm with rfl | hm
+    · refine ⟨[], ys, rfl, (fun _ h => by cases h), fun z hz he => ?_⟩
+      exact hn.1 (by rw [← he]; exact List.mem_map_of_mem hz)
+    · obtain ⟨pre, post, e, h1, h2⟩ := onlyOnce_of_nodup ys x hn.2 hm
+      refine ⟨y :: pre, post, by rw [e]; rfl, fun z hz => ?_, h2⟩
+      rcases List.mem_cons.1 hz with hzy | hz
+      · intro he
+        rw [hzy] at he
+        exact hn.1 (by rw [he]; exact List.mem_map_of_mem hm)
+      · exact h1 z hz
+
+/-! ### which rows are addressed -/
+
+theorem sortedDelta_perm (tab : Table) (reply : List ReplyRow) : ((sortedDelta tab reply).map (·.2)).Perm reply := by
+  unfold sortedDelta
+  have := (List.mergeSort_perm (reply.map fun r => (coerceRow tab r, r)) (fun a b => keyLe tab a.1 b.1)).map (·.2)
+  simpa [Function.comp_def] using this
+
+theorem sortedDelta_length (tab : Table) (reply : List ReplyRow) : (sortedDelta tab reply).length = reply.length := by
+  simp [sortedDelta, List.length_mergeSort]
+
+theorem mapM_some_mem {α β : Type} (f : α → Option β) :
+    ∀ (l : List α) (ys : List β), l.mapM f = some ys →
+      (∀ y ∈ ys, ∃ a ∈ l, f a = some y) ∧ List.length ys = l.length
+  | [], ys, h => by
+    simp at h; subst h
+    exact ⟨(fun _ h => by cases h), rfl⟩
+  | a :: l, ys, h => by
+    rw [List.mapM_cons] at h
+    cases hfa : f a with
+    | none => simp [hfa] at h
+    | some y =>
+      cases hl : l.mapM f with
+      | none => simp [hfa, hl] at h
+      | some ys' =>
+        simp [hfa, hl] at h
+        subst h
+        obtain ⟨i1, i2⟩ := mapM_some_mem f l ys' hl
+        refine ⟨fun z hz => ?_, by simp [i2]⟩
+        rcases List.mem_cons.1 hz with rfl | hz
+        · exact ⟨a, List.mem_cons_self, hfa⟩
+        · obtain ⟨a', h1, h2⟩ := i1 z hz
+          exact ⟨a', List.mem_cons_of_mem _ h1, h2⟩
+
+theorem lookup_spec {tab : Table} {cached : List Row} {r : ReplyRow} {y : Nat × ReplyRow}
+    (h : lookup tab cached r = some y) :
+    y.2 = r ∧ ∃ c, cached[y.1]? = some c ∧ c.key tab = replyKey tab r := by
+  unfold lookup at h
+  split at h
+  · rename_i c i hf
+    cases h
+    have hm := List.mem_of_find?_eq_some hf
+    have hp := List.find?_some hf
+    rw [List.mem_reverse, List.mk_mem_zipIdx_iff_getElem?] at hm
+    exact ⟨rfl, c, hm, by simpa using hp⟩
+  · cases h
+
+theorem mapM_lookup_snd (tab : Table) (cached : List Row) :
+    ∀ (l : List (Row × ReplyRow)) (upd : List (Nat × ReplyRow)),
+      l.mapM (fun x => lookup tab cached x.2) = some upd → upd.map (·.2) = l.map (·.2)
+  | [], upd, h => by simp at h; subst h; rfl
+  | a :: l, upd, h => by
+    rw [List.mapM_cons] at h
+    cases hfa : lookup tab cached a.2 with
+    | none => simp [hfa] at h
+    | some y =>
+      cases hl : l.mapM (fun x => lookup tab cached x.2) with
+      | none => simp [hfa, hl] at h
+      | some ys' =>
+        simp [hfa, hl] at h
+        subst h
+        rw [List.map_cons, List.map_cons, mapM_lookup_snd tab cached l ys' hl, (lookup_spec hfa).1]
+
+/-- what `addressed` returns: every reply row exactly once; by position when the reply has as many rows as the
+    table — then every row is addressed exactly once —, else each reply row with a cached row carrying its key -/
+theorem addressed_spec {tab : Table} {cached : List Row} {reply : List ReplyRow} {upd : List (Nat × ReplyRow)}
+    (h : addressed tab cached reply = some upd) :
+    (upd.map (·.2)).Perm reply ∧
+    (reply.length = cached.length → upd.map (·.1) = List.range cached.length) ∧
+    (reply.length ≠ cached.length → ∀ x ∈ upd, ∃ c, cached[x.1]? = some c ∧ c.key tab = replyKey tab x.2) := by
+  unfold addressed at h
+  split at h
+  · rename_i hl
+    have hl' : (sortedDelta tab reply).length = cached.length := by simpa using hl
+    cases h
+    have hlen : (List.range (sortedDelta tab reply).length).length = ((sortedDelta tab reply).map (·.2)).length := by simp
+    refine ⟨?_, fun _ => ?_, fun hne => ?_⟩
+    · rw [List.map_snd_zip (by rw [hlen]; exact Nat.le_refl _)]; exact sortedDelta_perm tab reply
+    · rw [List.map_fst_zip (by rw [hlen]; exact Nat.le_refl _), hl']
+    · rw [sortedDelta_length] at hl'; exact absurd hl' hne
+  · rename_i hl
+    have hl' : (sortedDelta tab reply).length ≠ cached.length := by simpa using hl
+    have hsnd := mapM_lookup_snd tab cached _ _ h
+    have hmem := (mapM_some_mem _ _ _ h).1
+    refine ⟨by rw [hsnd]; exact sortedDelta_perm tab reply, fun he => ?_, fun _ x hx => ?_⟩
+    · rw [sortedDelta_length] at hl'; exact absurd he hl'
+    · obtain ⟨a, _, ha⟩ := hmem x hx
+      obtain ⟨e, c, h1, h2⟩ := lookup_spec ha
+      exact ⟨c, h1, by rw [e]; exact h2⟩
+
+/-! ### `UpdateValues` / `UpdateValuesNumberOnly` cell by cell -/
+
+theorem cell_setCell_same (r : Row) (n : String) (v : Val) : (r.setCell n v).cell? n = some v := by
+  unfold Row.setCell Row.cell?
+  simp only [List.find?_append]
+  have : (r.cells.filter (fun x => x.1 != n)).find? (fun x => x.1 == n) = none := by
+    rw [List.find?_eq_none]
+    intro x hx
+    have := (List.mem_filter.1 hx).2
+    simpa using this
+  rw [this]
+  simp
+
+theorem cell_setCell_other (r : Row) (n n' : String) (v : Val) (h : n' ≠ n) :
+    (r.setCell n v).cell? n' = r.cell? n' := by
+  unfold Row.setCell Row.cell?
+  simp only [List.find?_append, List.find?_filter]
+  have h1 : (List.find? (fun x => x.1 == n') [(n, v)]) = none := by
+    simp [h.symm]
+  have h2 : r.cells.find? (fun a => decide ((a.1 != n) = true ∧ (a.1 == n') = true)) = r.cells.find? (fun a => a.1 == n') := by
+    congr 1
+    funext a
+    by_cases ha : a.1 = n'
+    · simp [ha, h]
+    · simp [ha]
+  rw [h1, h2]
+  simp
+
+/-- the step `updateRow` folds over the columns -/
+def writeCol (full : Bool) (reply : ReplyRow) (r : Row) (c : Column) : Row :=
+  if full || isNumericCol c then
+    match reply.find? (·.1 == c.name) with
+    | some (_, j) => r.setCell c.name (coerce c.dtype j)
+    | none => r
+  else r
+
+theorem updateRow_eq (cols : List Column) (full : Bool) (old : Row) (reply : ReplyRow) :
+    updateRow cols full old reply = cols.foldl (writeCol full reply) old := rfl
+
+theorem writeCol_other (full : Bool) (reply : ReplyRow) (r : Row) (c : Column) (n : String) (h : c.name ≠ n) :
+    (writeCol full reply r c).cell? n = r.cell? n := by
+  unfold writeCol
+  split
+  · split
+    · exact cell_setCell_other _ _ _ _ h.symm
+    · rfl
+  · rfl
+
+/-- a cell no written column is named after keeps its value -/
+theorem updateRow_cell_untouched (full : Bool) (reply : ReplyRow) (n : String) :
+    ∀ (cols : List Column) (old : Row),
+      (∀ c ∈ cols, c.name = n → (full || isNumericCol c) = false ∨ reply.find? (·.1 == n) = none) →
+      (updateRow cols full old reply).cell? n = old.cell? n
+  | [], _, _ => rfl
+  | c :: cs, old, h => by
+    rw [updateRow_eq, List.foldl_cons, ← updateRow_eq,
+      updateRow_cell_untouched full reply n cs _ (fun d hd => h d (List.mem_cons_of_mem _ hd))]
+    by_cases hc : c.name = n
+    · unfold writeCol
+      rcases h c List.mem_cons_self hc with h1 | h1
+      · rw [h1]; rfl
+      · rw [hc, h1]; split <;> rfl
+    · exact writeCol_other _ _ _ _ _ hc
+
+/-- a written column (all of them for a full update, the numeric ones else) that the reply delivers holds the
+    coerced delivered value afterwards, when column names are unique -/
+theorem updateRow_cell_written (full : Bool) (reply : ReplyRow) (c : Column) (k : String) (j : Lean.Json) :
+    ∀ (cols : List Column) (old : Row), (cols.map (·.name)).Nodup → c ∈ cols →
+      (full || isNumericCol c) = true → reply.find? (·.1 == c.name) = some (k, j) →
+      (updateRow cols full old reply).cell? c.name = some (coerce c.dtype j)
+  | [], _, _, hm, _, _ => by cases hm
+  | d :: ds, old, hn, hm, hw, hr => by
+    rw [List.map_cons, List.nodup_cons] at hn
+    rw [updateRow_eq, List.foldl_cons, ← updateRow_eq]
+    rcases List.mem_cons.1 hm with rfl | hm
+    · rw [updateRow_cell_untouched full reply c.name ds _ (fun e he hne => absurd (by rw [← hne]; exact List.mem_map_of_mem he) hn.1)]
+      unfold writeCol
+      rw [hw, hr]
+      exact cell_setCell_same _ _ _
+    · exact updateRow_cell_written full reply c k j ds _ hn.2 hm hw hr
+
+
+/-! ### the full / numbers-only decision -/
+
+theorem decision_noLU {w : World} {flags : Nat} {tab : Table} (old : Row) (r : ReplyRow)
+    (h1 : hasLU w flags tab = false) (h2 : hasLC tab = true) :
+    decision w flags tab old r =
+      some (replyInt r "last_check" != old.int "last_check" || intChanged (dynamicCols w.schema flags tab.name) old r) := by
+  unfold decision
+  simp [h1, h2]
+
+theorem intChanged_false {dyn : List Column} {old : Row} {r : ReplyRow} (h : intChanged dyn old r = false) :
+    ∀ col ∈ dyn, (col.dtype = .int → checkInt8 (replyInt r col.name) = old.int col.name) ∧
+      (col.dtype = .int64 → replyInt r col.name = old.int col.name) := by
+  intro col hc
+  unfold intChanged at h
+  rw [List.any_eq_false] at h
+  have := h col hc
+  constructor
+  · intro hd; rw [hd] at this; simpa using this
+  · intro hd; rw [hd] at this; simpa using this
+
+/-! ### the delta run of a loop pass -/
+
+/-- A loop pass over an awake peer that is `Up` with data, in the same minute as the last timeperiod refresh,
+    whose next run is due, without periodic full updates pending and without a forced full fetch, is a delta run
+    from the previous update time. -/
+theorem tick_delta (w : World) (now : Int) (p : PeerSt) (b : BackendSt) (c : Cache)
+    (hc : p.cache = some c) (hs : p.status = .up) (hidle : idlesAt w now p = false)
+    (hmin : p.lastTpMinute = (now / 60) % 60) (hdue : ¬ now < p.lastUpdate + w.cfg.updateInterval)
+    (hfull : ¬ (w.cfg.fullUpdateInterval > 0 ∧ now > p.lastFullUpdate + w.cfg.fullUpdateInterval))
+    (hforce : p.forceFull = false) :
+    tick w now p b = deltaRun w now { p with lastUpdate := now } b c p.lastUpdate := by
+  have hidling : p.idling = false := by
+    unfold idlesAt at hidle
+    cases hi : p.idling
+    · rfl
+    · rw [hi] at hidle; simp at hidle
+  have hstep : idleStep w now p = p := by
+    have h1 := idleStep_idling w now p
+    unfold idleStep at h1 ⊢
+    split
+    · rename_i hcond
+      rw [if_pos hcond] at h1
+      rw [hidle] at h1; cases h1
+    · rfl
+  rw [tick_eq, hstep]
+  have htp : tpStep w now p b p.cache = (none, p, b, some c) := by
+    unfold tpStep
+    rw [hc]
+    simp only []
+    rw [if_neg (by simp [hidling, hmin])]
+  rw [htp]
+  simp only []
+  have hnd : nextDue w p.lastUpdate p = p.lastUpdate + w.cfg.updateInterval := by
+    unfold nextDue; rw [hidling]; simp
+  unfold mainStep
+  rw [hnd, if_neg hdue]
+  have e1 : ({ p with lastUpdate := now } : PeerSt).idling = false := hidling
+  have e2 : ({ p with lastUpdate := now } : PeerSt).lastFullUpdate = p.lastFullUpdate := rfl
+  have e3 : ({ p with lastUpdate := now } : PeerSt).forceFull = false := hforce
+  generalize ({ p with lastUpdate := now } : PeerSt) = p' at e1 e2 e3 ⊢
+  rw [hs]
+  unfold dispatch
+  simp only []
+  unfold upRun
+  have hcond : (!p'.idling && decide (w.cfg.fullUpdateInterval > 0) &&
+      decide (now > p'.lastFullUpdate + w.cfg.fullUpdateInterval)) = false := by
+    rw [e1, e2]
+    by_cases h1 : w.cfg.fullUpdateInterval > 0
+    · by_cases h2 : now > p.lastFullUpdate + w.cfg.fullUpdateInterval
+      · exact absurd ⟨h1, h2⟩ hfull
+      · simp [h2]
+    · simp [h1]
+  rw [if_neg (by rw [hcond]; simp)]
+  simp only [e3, Bool.false_eq_true, if_false]
+
+/-- a delta run whose update succeeds publishes the updated tables and leaves the update time at `now` -/
+theorem deltaRun_of_ok {w : World} {now : Int} {p : PeerSt} {b : BackendSt} {c : Cache} {fromT : Int}
+    (h : (updateDelta w now p b c fromT).err = .none) :
+    (deltaRun w now p b c fromT).p = withCache (updateDelta w now p b c fromT) ∧
+      (deltaRun w now p b c fromT).err = .none ∧ (deltaRun w now p b c fromT).p.lastUpdate = now := by
+  have hp : (deltaRun w now p b c fromT).p = withCache (updateDelta w now p b c fromT) := by
+    unfold deltaRun finishStep
+    simp only [h]
+  have he : (deltaRun w now p b c fromT).err = .none := by
+    unfold deltaRun finishStep
+    simp only [h]
+  refine ⟨hp, he, ?_⟩
+  rw [hp, (withCache_frame _).2.2.2.2.1]
+  exact (updateDelta_ok h).2.2.2.2.1
+
+
+/-! ### the delta request and the full scan -/
+
+theorem deltaReply_mem (rows : List ReplyRow) (tsCol : String) (lo hi : Int) (executing : Bool) (extra : List Int)
+    (r : ReplyRow) :
+    r ∈ deltaReply rows tsCol (some (lo, hi)) executing extra ↔
+      r ∈ rows ∧ ((lo ≤ replyInt r tsCol ∧ replyInt r tsCol < hi) ∨
+        (executing = true ∧ replyInt r "is_executing" = 1) ∨ replyInt r "last_check" ∈ extra) := by
+  unfold deltaReply
+  rw [List.mem_filter]
+  apply and_congr_right
+  intro _
+  simp [or_assoc]
+
+/-- `getMissingTimestamps`: the `last_check` values of the objects whose scan columns differ from the cache and whose
+    `last_check` lies before the window, sorted, without duplicates -/
+def scanMissing (w : World) (tname : String) (flags0 flags1 : Nat) (threshold : Int) (backend : List ReplyRow)
+    (cached : List Row) : List Int :=
+  let tab := tableOf w tname
+  let cols := scanColumns (tsColumn w flags0 == "last_check") ((flags1 &&& flagBit w.schema "HasLastUpdateColumn") != 0)
+  ((((sortedReply w tname backend).zip cached).filter fun (r, old) =>
+      replyInt r "last_check" < threshold && scanChanged tab cols old r).map (fun (r, _) => replyInt r "last_check")
+    |>.mergeSort (· ≤ ·)).eraseDups
+
+theorem scanMissing_mem (w : World) (tname : String) (flags0 flags1 : Nat) (threshold : Int) (backend : List ReplyRow)
+    (cached : List Row) (v : Int) :
+    v ∈ scanMissing w tname flags0 flags1 threshold backend cached ↔
+      ∃ x ∈ (sortedReply w tname backend).zip cached, replyInt x.1 "last_check" = v ∧ v < threshold ∧
+        scanChanged (tableOf w tname)
+          (scanColumns (tsColumn w flags0 == "last_check") ((flags1 &&& flagBit w.schema "HasLastUpdateColumn") != 0))
+          x.2 x.1 = true := by
+  unfold scanMissing
+  simp only [List.mem_eraseDups, List.mem_mergeSort, List.mem_map, List.mem_filter, Bool.and_eq_true, decide_eq_true_eq]
+  constructor
+  · rintro ⟨x, ⟨hx, h1, h2⟩, rfl⟩
+    exact ⟨x, hx, rfl, h1, h2⟩
+  · rintro ⟨x, hx, rfl, h1, h2⟩
+    exact ⟨x, ⟨hx, h1, h2⟩, rfl⟩
+
+/-- the hosts / services step when the full scan is due and answered with no more objects than cached -/
+theorem deltaTable_scan (w : World) (now : Int) (p : PeerSt) (b : BackendSt) (c : Cache) (tname : String)
+    (window : Option (Int × Int)) (threshold : Int)
+    (hdue : ¬ lastFullOf p tname > now - 60) (hq : (query w now p b).2.2 = none)
+    (hlen : ¬ (c.get tname).length < (b.rows tname).length) :
+    deltaTable w now p b c tname window threshold =
+      let q := query w now p b
+      let missing := scanMissing w tname p.flags q.1.flags threshold (b.rows tname) (c.get tname)
+      if missing.isEmpty then plainStep w now c tname window p.flags q.1 q.2.1 [] false
+      else plainStep w now c tname window p.flags q.1 q.2.1 (if tsFilterLen missing > 150 then missing.take 149 else missing) true := by
+  rw [deltaTable_eq]
+  simp only []
+  rw [if_neg hdue]
+  simp only [hq]
+  have hrows := query_rows w now p b true tname
+  rw [hrows]
+  have hl : ¬ (c.get tname).length <
+      (List.map (fun x => x.2) ((List.map (fun r => (coerceRow ((w.schema.table? tname).getD { name := tname, cols := [] }) r, r))
+        (b.rows tname)).mergeSort fun a b => keyLe ((w.schema.table? tname).getD { name := tname, cols := [] }) a.1 b.1)).length := by
+    simpa [List.length_mergeSort] using hlen
+  rw [if_neg hl]
+  rfl
+
+theorem nodup_name_eq : ∀ {cols : List Column}, (cols.map (·.name)).Nodup → ∀ {c d : Column}, c ∈ cols → d ∈ cols →
+    c.name = d.name → c = d
+  | [], _, _, _, hc, _, _ => by cases hc
+  | x :: xs, hn, c, d, hc, hd, he => by
+    rw [List.map_cons, List.nodup_cons] at hn
+    rcases List.mem_cons.1 hc with hc | hc <;> rcases List.mem_cons.1 hd with hd | hd
+    · rw [hc, hd]
+    · exact absurd (by rw [← hc, he]; exact List.mem_map_of_mem hd) hn.1
+    · exact absurd (by rw [← hd, ← he]; exact List.mem_map_of_mem hc) hn.1
+    · exact nodup_name_eq hn.2 hc hd he
+
+
+/-! ### a run that finds nothing to do -/
+
+/-- an empty reply addresses nothing -/
+theorem applyDelta_nil (w : World) (flags : Nat) (tab : Table) (cached : List Row) :
+    applyDelta w flags tab cached [] = some cached := by
+  rw [applyDelta_eq]
+  simp only [addressed, sortedDelta, List.map_nil, List.mergeSort_nil, List.length_nil, List.range_zero, List.zip_nil_left]
+  split <;> rfl
+
+/-- the hosts / services step against a backend without such objects, the full scan not being due -/
+theorem winStep_quiet (w : World) (now fromT : Int) (p : PeerSt) (b : BackendSt) (c : Cache) (t : String)
+    (hlast : lastFullOf p t > now - 60) (hq : (query w now p b).2.2 = none) (hrows : b.rows t = []) :
+    winStep w now fromT p b c t =
+      { p := (query w now p b).1, b := (query w now p b).2.1, cache := c.set t (c.get t), err := .none } := by
+  have h : ∀ win thr, deltaTable w now p b c t win thr =
+      { p := (query w now p b).1, b := (query w now p b).2.1, cache := c.set t (c.get t), err := .none } := by
+    intro win thr
+    rw [deltaTable_eq]
+    simp only []
+    rw [if_pos hlast]
+    unfold plainStep
+    simp only [hq]
+    rw [query_rows, hrows]
+    have : deltaReply [] (tsColumn w p.flags) win
+        (tsColumn w p.flags == "last_check" && w.cfg.syncIsExecuting && (p.flags &&& flagBit w.schema "Shinken") == 0) [] = [] := rfl
+    rw [this, applyDelta_nil]
+    simp only [Bool.false_eq_true, if_false]
+  unfold winStep
+  split <;> exact h _ _
+
+/-- the world of the examples: no schema (every table has no columns), default configuration -/
+def exWorld0 : World := { cfg := {}, schema := { tables := [] }, mainRestart := 100 }
+
+/-- a backend that answers, with one status row and no other objects -/
+def exBackend0 : BackendSt :=
+  { tables := [("status", [[("program_start", Lean.Json.num 5), ("nagios_pid", Lean.Json.num 7)]])], cols := [] }
+
+/-- an awake peer that is `Up` with an (empty) table set, last updated at 120 -/
+def exPeer0 : PeerSt :=
+  { status := .up, cache := some [], lastError := "", lastOnline := 120, lastUpdate := 120, lastFullHostUpdate := 120,
+    lastFullServiceUpdate := 120, lastFullUpdate := 120, lastQuery := 125, lastTpMinute := 2 }
+
+/-- a delta update that succeeds -/
+theorem exDelta_ok : (updateDelta exWorld0 130 { exPeer0 with lastUpdate := 130 } exBackend0 [] 120).err = .none := by
+  rw [updateDelta_eq]
+  have h0 : updateFullTable exWorld0 130 { exPeer0 with lastUpdate := 130 } exBackend0 [] "status" =
+      { p := { exPeer0 with lastUpdate := 130 }, b := exBackend0, cache := [], err := .none } := by
+    rw [updateFullTable_eq]; rfl
+  simp only [h0]
+  rw [winStep_quiet exWorld0 130 120 _ exBackend0 [] "hosts" (by decide) (by decide) rfl]
+  simp only []
+  rw [winStep_quiet exWorld0 130 120 _ _ _ "services" (by decide) (by decide) (by rw [query_rows]; rfl)]
+  simp only []
+  decide
+
+/-- the loop pass at 130 over `exPeer0` is a successful delta run, and leaves a peer whose next pass at 140 is a
+    delta run again -/
+theorem exTick_fields :
+    exPeer0.cache = some [] ∧ exPeer0.status = .up ∧ idlesAt exWorld0 130 exPeer0 = false ∧
+    exPeer0.lastTpMinute = ((130 : Int) / 60) % 60 ∧ ¬ (130 : Int) < exPeer0.lastUpdate + exWorld0.cfg.updateInterval ∧
+    ¬ (exWorld0.cfg.fullUpdateInterval > 0 ∧ (130 : Int) > exPeer0.lastFullUpdate + exWorld0.cfg.fullUpdateInterval) ∧
+    exPeer0.forceFull = false ∧
+    (∃ c', (tick exWorld0 130 exPeer0 exBackend0).p.cache = some c') ∧
+    (tick exWorld0 130 exPeer0 exBackend0).p.status = .up ∧
+    idlesAt exWorld0 140 (tick exWorld0 130 exPeer0 exBackend0).p = false ∧
+    (tick exWorld0 130 exPeer0 exBackend0).p.lastTpMinute = ((140 : Int) / 60) % 60 ∧
+    ¬ (140 : Int) < (tick exWorld0 130 exPeer0 exBackend0).p.lastUpdate + exWorld0.cfg.updateInterval ∧
+    (tick exWorld0 130 exPeer0 exBackend0).p.forceFull = false := by
+  have a1 : exPeer0.cache = some [] := rfl
+  have a2 : exPeer0.status = .up := rfl
+  have a3 : idlesAt exWorld0 130 exPeer0 = false := by decide
+  have a4 : exPeer0.lastTpMinute = ((130 : Int) / 60) % 60 := by decide
+  have a5 : ¬ (130 : Int) < exPeer0.lastUpdate + exWorld0.cfg.updateInterval := by decide
+  have a6 : ¬ (exWorld0.cfg.fullUpdateInterval > 0 ∧ (130 : Int) > exPeer0.lastFullUpdate + exWorld0.cfg.fullUpdateInterval) := by decide
+  have a7 : exPeer0.forceFull = false := rfl
+  refine ⟨a1, a2, a3, a4, a5, a6, a7, ?_⟩
+  rw [tick_delta exWorld0 130 exPeer0 exBackend0 [] a1 a2 a3 a4 a5 a6 a7]
+  have e120 : exPeer0.lastUpdate = 120 := rfl
+  rw [e120]
+  obtain ⟨hp, _, _⟩ := deltaRun_of_ok exDelta_ok
+  rw [hp]
+  -- evaluate the update: the same steps as in `exDelta_ok`
+  rw [updateDelta_eq]
+  have h0 : updateFullTable exWorld0 130 { exPeer0 with lastUpdate := 130 } exBackend0 [] "status" =
+      { p := { exPeer0 with lastUpdate := 130 }, b := exBackend0, cache := [], err := .none } := by
+    rw [updateFullTable_eq]; rfl
+  simp only [h0]
+  rw [winStep_quiet exWorld0 130 120 _ exBackend0 [] "hosts" (by decide) (by decide) rfl]
+  simp only []
+  rw [winStep_quiet exWorld0 130 120 _ _ _ "services" (by decide) (by decide) (by rw [query_rows]; rfl)]
+  simp only []
+  refine ⟨?_, by decide, by decide, by decide, by decide, by decide⟩
+  exact Option.isSome_iff_exists.1 (by decide)
 
 end Lmd.PeerL
